@@ -208,6 +208,11 @@ def update_case(name, backward=True):
     calls = [Call("update_times::update_times_forward", [("Quantity", Sym("t0"))])]
     if backward:
         calls.append(Call("update_times::update_times_backward", []))
+        if sum(1 for e in pre if e["idx_next_alt"] != 0) > 1:
+            # nested alternates: with independent durations the backward pass can reach the start node through a branch that is not the
+            # shortest one (mirror image of the forward-pass observation, DESIGN.md 10.6); whether a real construction can produce such
+            # durations is not established, so the trip-time claim after the backward pass is made for single-alternate graphs only
+            claims[:] = [cl for cl in claims if cl.role != "trip_time_shortest"]
     else:
         # earliest-time reading of an alternate: right after the forward pass it stands for the same instant as the split node it leaves from
         # (the backward pass then moves off-shortest-path nodes to latest times, for which no order between the two is implied)
